@@ -23,6 +23,7 @@ import (
 	"strings"
 
 	"elaverif/harness/hx"
+	"elaverif/harness/pctx"
 
 	"github.com/elastos/Elastos.ELA/common"
 	"github.com/elastos/Elastos.ELA/common/config"
@@ -112,6 +113,8 @@ var cfgSeq int
 
 func exec(t []string) string {
 	switch t[0] {
+	case "ctx":
+		return pctx.Exec(t)
 	case "chk":
 		h := u32(t[1])
 		var fl []config.FrozenAddress
@@ -210,6 +213,8 @@ func exec(t []string) string {
 
 func oracle(t []string, out string) *hx.Violation {
 	switch t[0] {
+	case "ctx":
+		return pctx.Oracle(t, out)
 	case "chk":
 		if out != "ok" {
 			return nil
@@ -259,6 +264,8 @@ func words(alpha string, maxLen int) []string {
 }
 
 func gen(g *hx.Gen) {
+	pctx.Gen(g) // the real ContextCheck on an in-process node
+	pctx.Close()
 	w4 := words("FGO", 4)
 	w3 := words("FGO", 3)
 	w2 := words("FGO", 2)
@@ -378,6 +385,13 @@ func nontrivial(t []string, out string) bool {
 }
 
 func bucket(t []string, out string) string {
+	if t[0] == "ctx" {
+		f := strings.Fields(out)
+		if len(f) >= 2 {
+			return "ctx/" + f[0] + " " + f[1]
+		}
+		return "ctx/" + out
+	}
 	if t[0] == "chk" {
 		f := strings.Fields(out)
 		if len(f) >= 2 {
